@@ -32,6 +32,10 @@ pub struct ColSpec {
     /// NEW generation overflow while a reindex batch fills them (growth triggered from a batch, two
     /// generations pending at once)
     pub deep: bool,
+    /// every value is stored as a chain of parts (> 32 KiB); values whose ids have the same parity share their
+    /// first 40 % byte for byte, so that overwriting A by B by C regularly has C equal to A (and different from B)
+    /// in whole 4 KiB parts
+    pub multi: bool,
 }
 
 impl ColSpec {
@@ -49,6 +53,7 @@ impl ColSpec {
             grow: j["grow"].as_bool().unwrap_or(false),
             collide: j["collide"].as_bool().unwrap_or(false),
             deep: j["deep"].as_bool().unwrap_or(false),
+            multi: j["multi"].as_bool().unwrap_or(false),
             kind,
         }
     }
@@ -256,7 +261,9 @@ impl Universe {
         } else {
             (self.seed as usize).wrapping_mul(3) + c * 5 + (v as usize) * 3
         };
-        if self.small {
+        if spec.multi {
+            [33_000usize, 40_000, 70_000, 37_086, 100_000, 36_000, 33_000, 45_000][((v as usize) + k) % 8]
+        } else if self.small {
             [0usize, 1, 5, 31, 32, 33, 127, 500][idx % 8]
         } else {
             VALUE_SIZES[idx % VALUE_SIZES.len()]
@@ -302,7 +309,12 @@ impl Universe {
             out
         } else {
             let mut rng = SmallRng::seed_from_u64(self.seed ^ ((c as u64) << 40) ^ ((v as u64) << 8) ^ 0x5555);
-            let mut out = fill(&mut rng, size, v % 2 == 1);
+            let mut out = fill(&mut rng, size, v % 2 == 1 && !spec.multi);
+            if spec.multi {
+                let mut r2 = SmallRng::seed_from_u64(self.seed ^ ((c as u64) << 40) ^ (((v % 2) as u64) << 8) ^ 0x3333);
+                let shared = fill(&mut r2, 13_000, false);
+                out[..13_000].copy_from_slice(&shared);
+            }
             // make values of different ids distinct even at equal sizes
             if out.len() >= 2 {
                 out[0] = v as u8;
